@@ -310,6 +310,7 @@ func sqlQueryModel(e *Engine, st *State, args []Value, depth int, pos string, k 
 		k(st, VTuple{[]Value{VNil{}, err}})
 	}, func(st *State) {
 		ro := &RowsObj{Stmt: stmt, Params: params, Docs: st.g.Docs, ID: e.nextID()}
+		info.Cursor = ro
 		k(st, VTuple{[]Value{VAbs{Kind: "rows", ID: ro.ID, Data: ro}, VNil{}}})
 	})
 }
